@@ -45,3 +45,14 @@ CONTRACTS[I + "supervised_column_kl"] = dict(
     returns="real", ensures=[],
     loops={"for#1": dict(invariant=["len(observed) == len(baseline_probabilities)"])},
 )
+
+# the per-column driver of the KL kernels: one weight per CSC column (the kernel it is given is a parameter: assumed pure, real-valued)
+CONTRACTS[I + "column_weights"] = dict(
+    params=dict(indptr="int[]", indices="int[]", data="real[]", baseline_probabilities="real[]", column_kl_divergence_func="func",
+                prior_strength="real", target="int[]"),
+    func_params={"column_kl_divergence_func": dict(returns="real", ensures=[])},
+    requires=["len(indptr) >= 1", "len(indices) == len(data)"],
+    returns="real[]",
+    ensures=["len(result) == len(indptr) - 1", "unchanged(indptr) and unchanged(indices) and unchanged(data) and unchanged(baseline_probabilities)"],
+    loops={"for#1": dict(invariant=["len(weights) == n_cols"])},
+)
